@@ -85,6 +85,15 @@ func newLexer(env *ExecEnv, r io.RuneScanner) *lexer {
 }
 
 func (l *lexer) Lex(lval *yySymType) int {
+	l.mu.Lock()
+	failed := l.err != nil
+	l.mu.Unlock()
+	if failed {
+		// no token is consumed after a failure; otherwise the rest
+		// of the evaluation depends on when the lexer is cancelled
+		return 0
+	}
+
 	switch tok := (<-l.token).(type) {
 	case token:
 		lval.expr.s = tok.val
@@ -334,7 +343,7 @@ func (l *lexer) lexOp() action {
 			}
 		}
 	default:
-		l.Error(fmt.Sprintf("unexpected %q", r))
+		l.fail(fmt.Sprintf("unexpected %q", r))
 		return nil
 	}
 	l.emit(op)
@@ -377,14 +386,30 @@ func (l *lexer) Error(s string) {
 	switch {
 	case strings.HasPrefix(s, "syntax error: "):
 		s = s[14:]
-		if l.err != nil && s == "unexpected EOF" {
+		if l.err != nil && strings.HasPrefix(s, "unexpected EOF") {
 			return // lexing was interrupted
 		}
 	case strings.HasPrefix(s, "runtime error: "):
 		s = s[15:]
 	}
 	l.err = ArithExprError{Msg: s}
+	l.stop()
+}
 
+// fail records an error of the lexer. It never replaces an error of the
+// parser, which is always behind the lexer in the expression.
+func (l *lexer) fail(s string) {
+	l.mu.Lock()
+	defer l.mu.Unlock()
+
+	if l.err == nil {
+		l.err = ArithExprError{Msg: s}
+	}
+	l.stop()
+}
+
+// stop cancels the lexer. l.mu must be held.
+func (l *lexer) stop() {
 	select {
 	case <-l.cancel:
 	default:
